@@ -659,7 +659,9 @@ def projection(stack, sc, sh, out):
         if sc:
             for c in f.contexts:
                 _proj_ctx(c, f, sh, out)
-            if not (f.contexts and f.contexts[-1].is_exiting):
+            # (the entry of a context that is being exited stands for the frame's own line - when that entry is shown)
+            last = f.contexts[-1] if f.contexts else None
+            if not (last is not None and last.is_exiting and (sh or not last.hide)):
                 out.append(("frame", f.filename, f.lineno, f.funcname))
         else:
             out.append(("frame", f.filename, f.lineno, f.funcname))
